@@ -713,3 +713,48 @@ def call_sites(gen: Gen, target: str):
                 fp = H.strip(n["f"])
                 if isinstance(fp, dict) and fp.get("k") == "path" and fp.get("def") == target:
                     yield f, n, list(n["args"])
+
+
+# ------------------------------------------------------------------------------------------------
+# G7: disabled discipline
+# ------------------------------------------------------------------------------------------------
+
+MUST_SKIP_DISABLED = ["EnumString", "Display", "AsRefStr", "IntoStaticStr", "EnumIter", "EnumCount", "FromRepr", "EnumIs", "EnumTryAs", "EnumTable", "EnumMessage", "EnumProperty"]
+MUST_LIST_ALL = ["VariantNames", "VariantArray", "EnumDiscriminants"]
+
+
+def disabled_reads(gen: Gen) -> Dict[str, List[str]]:
+    """derive -> functions reachable from its entry point that READ the `disabled` field of the variant properties."""
+    readers = set()
+    for p, f in gen.fns.items():
+        lhs_ids = set()
+        for n in H.walk(f["body"]["tree"]):
+            if n.get("k") == "assign":
+                for m in H.walk(n["l"]):
+                    lhs_ids.add(id(m))
+        for n in H.walk(f["body"]["tree"]):
+            if n.get("k") == "field" and n.get("name") == "disabled" and id(n) not in lhs_ids:
+                base = (n.get("base_ty") or {}).get("adt") or ""
+                if base.endswith("VariantProperties"):
+                    readers.add(p)
+    out: Dict[str, List[str]] = {}
+    for d, f in gen.entries.items():
+        r = gen.reach(f["path"])
+        out[d] = sorted(x for x in r if x in readers)
+    return out
+
+
+def g7_violations(prop: str, gen: Gen, derives: List[str]) -> Tuple[List[Any], dict]:
+    from common import Violation
+    reads = disabled_reads(gen)
+    out = []
+    for d in derives:
+        if d not in gen.entries:
+            continue
+        if d in MUST_SKIP_DISABLED and not reads.get(d):
+            out.append(Violation(prop, "G7: a derive that must skip disabled variants reads the `disabled` flag", "%s:G7:disabled-never-read:%s" % (prop, d),
+                                 "no function reachable from derive %s reads StrumVariantProperties.disabled" % d, {"generator_fn": gen.entries[d]["path"], "derive": d}))
+        if d in MUST_LIST_ALL and reads.get(d):
+            out.append(Violation(prop, "G7: a derive that lists every declared variant does not consult the `disabled` flag", "%s:G7:disabled-read:%s" % (prop, d),
+                                 "derive %s reaches %s, which reads StrumVariantProperties.disabled" % (d, [gen.short(x) for x in reads[d]]), {"generator_fn": gen.entries[d]["path"], "derive": d}))
+    return out, {"G7_disabled_readers": {d: [gen.short(x) for x in reads.get(d, [])] for d in derives if d in gen.entries}}
